@@ -165,18 +165,20 @@ class Registry:
             k = self.classes.get(c)
             if k is None or k.pycls is None:
                 continue
-            raw = k.pycls.__dict__.get(name)
-            if raw is None:
-                continue
-            if isinstance(raw, property):
+            # walk the real Python MRO: inherited methods of library base classes (lark.Visitor.visit ...) count
+            for pc in k.pycls.__mro__:
+                raw = pc.__dict__.get(name)
+                if raw is None:
+                    continue
+                if isinstance(raw, property):
+                    return None
+                f = raw.__func__ if isinstance(raw, (staticmethod, classmethod)) else raw
+                if not callable(f):
+                    return None
+                qn = f"{pc.__module__}.{pc.__qualname__}.{name}"
+                if qn in self.contracts or qn in self.inline or qn in self.externals:
+                    return FuncRef(qn, f)
                 return None
-            f = raw.__func__ if isinstance(raw, (staticmethod, classmethod)) else raw
-            if not callable(f):
-                return None
-            qn = f"{k.pycls.__module__}.{k.pycls.__qualname__}.{name}"
-            if qn in self.contracts or qn in self.inline or qn in self.externals:
-                return FuncRef(qn, f)
-            return None
         return None
 
     def property_of(self, cls, name):
